@@ -15,8 +15,16 @@ func ByName(a, b string) bool {
 func ByNameSmart(a, b string) bool {
 	v0, err0 := strconv.ParseFloat(a, 64)
 	v1, err1 := strconv.ParseFloat(b, 64)
-	if err0 == nil && err1 == nil {
-		return v0 < v1
+	num0 := err0 == nil && v0 == v0 // NaN has no magnitude: treat it as text
+	num1 := err1 == nil && v1 == v1
+	if num0 && num1 {
+		if v0 != v1 {
+			return v0 < v1
+		}
+		return a < b // same number, different spelling: keep a fixed order
+	}
+	if num0 != num1 {
+		return num0 // numbers sort before text, so that the order is transitive
 	}
 	return a < b
 }
